@@ -89,6 +89,8 @@ def gen_frame(rng, name, arbid, ext, opts):
                         s["mux"] = g
                         sigs.append(s)
                 used |= gused
+            if not any(isinstance(s["mux"], int) for s in sigs):
+                mx["mux"] = None          # a multiplexer without any group is not a multiplexed frame
     for k in range(rng.randint(1, opts.get("maxsigs", 4))):
         s = gen_signal(rng, "s%d" % k, nbytes, used, opts)
         if s:
